@@ -9,7 +9,10 @@ from vlib import common
 
 names = sorted(p.stem for p in (common.VERIF / 'translate').glob('tr_*.py'))
 lk = common._lock()
+import importlib
 for n in names:
+    if not hasattr(importlib.import_module(f'translate.{n}'), 'translate'):
+        continue   # helper module (pins), not a generator
     try:
         common.run_translators([n])
         print('translated', n)
